@@ -14,7 +14,7 @@
    every commit against `encap_recipients` evaluated in Coq; removed and never-added parties fed
    all later traffic).  Statements only. *)
 From Coq Require Import NArith List.
-From MlsV Require Import Res TreeMathGen Tree TreeProofs TreeWF Kem KemProofs Admission AdmissionProofs.
+From MlsV Require Import Res TreeMathGen Tree TreeProofs TreeWF Kem KemProofs Admission AdmissionProofs KemGen KemGenProofs.
 Import ListNotations.
 Local Open Scope N_scope.
 
@@ -70,3 +70,10 @@ Print Assumptions C02_removed_leaf_receives_nothing.
 Print Assumptions C02_removed_leaf_is_blank.
 Print Assumptions C02_later_epochs_rejected.
 Print Assumptions C02_other_groups_rejected.
+
+(* the sender-side filter of the model IS what the translator reads in
+   tree_kem/kem.rs encrypt_copath_node_resolution (regenerated on every run) *)
+Theorem C02_translated_sender_filter_is_the_model :
+  forall excl idx, gen_seal_keep (map (fun l => 2 * l) excl) idx = not_excluded excl idx.
+Proof. exact gen_seal_keep_is_model. Qed.
+Print Assumptions C02_translated_sender_filter_is_the_model.
